@@ -143,6 +143,8 @@ type Verdict struct {
 	Result string // "holds", "violated", "reachable", "unreachable", "inconclusive"
 	Model  map[string]uint64
 	Secs   float64
+	// Confirmed: the solver's model falsifies the obligation when evaluated concretely
+	Confirmed bool
 }
 
 // Discharge decides all recorded obligations with the interpreter's solver.
@@ -181,6 +183,19 @@ func (in *Interp) decide(o *Obligation) Verdict {
 					v.Model = map[string]uint64{}
 					for t, x := range m {
 						v.Model[t.Name] = x
+					}
+				}
+				// independent confirmation: the full model must falsify the obligation under the
+				// assumptions when evaluated concretely by the term evaluator (no solver involved)
+				neg := in.St.And(in.Valid, in.St.And(o.Guard, in.St.Not(o.Cond)))
+				if fm, err := in.Sol.Model(collectVars(neg)); err == nil {
+					if x, ok := in.St.Eval(neg, fm, map[*smt.Term]uint64{}); ok && x == 1 {
+						v.Confirmed = true
+					}
+					if o.Pos == "hdl-vs-sim" {
+						for t, x := range fm {
+							v.Model[t.Name] = x
+						}
 					}
 				}
 			default:
